@@ -3,8 +3,8 @@
    (Gen_C12_Tableau.v from Phreeqc::rk_kinetics, Gen_C12_Step.v from cxxKinetics::Current_step). *)
 From Coq Require Import Reals QArith Qabs ZArith List.
 From IPV Require Import C12.MiniPrelude C12.RK C12.Step C12.Checker C12.Closed.
-From IPV Require Import Gen.Gen_C12_Tableau Gen.Gen_C12_Step Gen.Gen_C12_Restart Gen.Gen_C12_Transport Gen.Gen_C12_Bind.
-From IPV Require Import C12.Inst C12.RKProofs C12.StepProofs C12.Controller C12.Transfer C12.Restart C12.TransportTime C12.BindModel C12.Bind.
+From IPV Require Import Gen.Gen_C12_Tableau Gen.Gen_C12_Step Gen.Gen_C12_Restart Gen.Gen_C12_Transport Gen.Gen_C12_Bind Gen.Gen_C12_Clamp.
+From IPV Require Import C12.Inst C12.RKProofs C12.StepProofs C12.Controller C12.Transfer C12.Restart C12.TransportTime C12.BindModel C12.Bind C12.ClampTie.
 Import ListNotations.
 Open Scope Q_scope.
 
@@ -303,3 +303,12 @@ Theorem rate_program_reads_own_parameters :
   lookup "count_rate_p" g_rate_bind = Some (SizeOf "Get_d_params").
 Proof. exact rate_program_parameters. Qed.
 Print Assumptions rate_program_reads_own_parameters.
+
+(* the exhaustion clamp of calc_final_kinetic_reaction compares with and clamps to the amount at the start of the current
+   Runge-Kutta sub-step - the array rk_kinetics subtracts the delivered moles from and refreshes at every sub-step attempt -
+   which is what Transfer.v models with the single field kc_m (transfer_is_formula_times_delta, reactants_never_negative) *)
+Theorem exhaustion_clamp_uses_substep_amount :
+  forallb (String.eqb g_clamp_cmp) g_update_bases = true /\ g_update_bases <> [] /\ g_clamp_set = g_clamp_cmp /\
+  g_substep_snapshots = [g_clamp_cmp] /\ (g_clamp_m == 0)%Q.
+Proof. exact clamp_tie. Qed.
+Print Assumptions exhaustion_clamp_uses_substep_amount.
